@@ -39,14 +39,14 @@ theorem history_offset_table_partial (ps : List Param) (fs : List Nat) (cap byte
     Lifetimes v (ops.foldl VOp.spec []) (canonRec v.ps (ops.foldl VOp.spec [])) :=
   lifetimes_offset_table ((VarInv.new ps fs cap bytes junk hl hnf).history ht junk ops hv)
 
-/-- every history over `memmove`-relocatable value types (stride locator) -/
-theorem history_stride_partial (ps : List Param) (fs : List Nat) (cap bytes : Nat) (junk : Nat → Nat)
+/-- every history, **all value types**, on the stride locator (lists without VaryingSize): element-wise relocation moves
+    by whole strides, so source and target never overlap and every target slot was vacated before -/
+theorem history_stride (ps : List Param) (fs : List Nat) (cap bytes : Nat) (junk : Nat → Nat)
     (hl : ListOK ps) (hf : isFixedOrPlain ps = true) (hlf : ps.length ≤ fs.length)
-    (ht : (Vec.new ps fs cap bytes junk).trivialReloc = true)
     (ops : List VOp) (hv : C01.ValidFixed ps fs [] ops) :
     let v := ops.foldl (VOp.apply junk) (Vec.new ps fs cap bytes junk)
     Lifetimes v (ops.foldl VOp.spec []) (fixRec v.ps v.loc.stride (ops.foldl VOp.spec [])) :=
-  lifetimes_stride ((FixInv.new ps fs cap bytes junk hl hf hlf).history ht junk ops
+  lifetimes_stride ((FixInv.new ps fs cap bytes junk hl hf hlf).history_all junk ops
     (C01.validFix_of_counts ps fs hl hf hlf ops [] hv))
 
 /-- **all value types** (std::string, unique_ptr, …): every history whose erases end at the end of the vector
